@@ -81,8 +81,12 @@ func (i *itemsValidator) Validate(index int, data interface{}) *Result {
 		}()
 	}
 
-	tpe := reflect.TypeOf(data)
-	kind := tpe.Kind()
+	// a nil item (a JSON null) has no type: only the validators that apply to any kind get to see it,
+	// and the type validator reports it
+	kind := reflect.Invalid
+	if tpe := reflect.TypeOf(data); tpe != nil {
+		kind = tpe.Kind()
+	}
 	var result *Result
 	if i.Options.recycleResult {
 		result = pools.poolOfResults.BorrowResult()
